@@ -45,6 +45,11 @@ Definition accepted_sites : list (string * N) := [
 Theorem C09_sites_inventory : x_map_range_sites = map (fun s => (s2r (fst s), snd s)) accepted_sites.
 Proof. reflexivity. Qed.
 
+(* the collectors of class 4 that are methods (method.Index.GetAll): every call sorts the result before use *)
+Theorem C09_collectors_sorted_by_callers :
+  x_collector_callers = [(s2r "GetAll", s2r "generator/generator.go:getGenMethods", true)]%string.
+Proof. reflexivity. Qed.
+
 (* no first-hit-returns site is left except the two that return early only on an I/O error *)
 Theorem C09_no_order_dependent_site :
   map fst (filter (fun s => N.eqb (snd s) 3) x_map_range_sites) = map s2r ["generator/filemanager.go:renderFiles"; "runner.go:writeFiles"]%string.
@@ -63,5 +68,6 @@ Print Assumptions C09_first_hit_dependent.
 Print Assumptions C09_first_hit_indep_le1.
 Print Assumptions C09_least_hit_indep.
 Print Assumptions C09_sites_inventory.
+Print Assumptions C09_collectors_sorted_by_callers.
 Print Assumptions C09_no_order_dependent_site.
 Print Assumptions C09_history_independent.
